@@ -493,6 +493,15 @@ func TestC20HTTP(t *testing.T) {
 			for _, l := range ls {
 				labels[l] = true
 			}
+			if !lt.magnet && lt.legacy&1 != 0 && !lt.single {
+				labels["names-in-path.utf-8"] = true
+				if lt.legacy&2 == 0 {
+					labels["names-in-path.utf-8-without-name.utf-8"] = true
+				}
+			}
+			if !lt.magnet && lt.legacy&2 != 0 {
+				labels["name-in-name.utf-8"] = true
+			}
 			if !lt.single && !lt.magnet && len(lt.files) >= 2 && len(lt.dirs()) > 0 {
 				nontrivial = true
 			}
